@@ -115,6 +115,33 @@ MUTANTS += [
         }
 
         if constexpr""")]),
+ dict(name='c08-benign-continue-style', prop='C08', benign=True, expect='',
+      edits=[('src/bls12_381/pairing.cpp', """            if (!pair.g1->is_zero() && !pair.g2->is_zero()) {
+                miller_doubling_step(coeffs, pair.r);
+                ell(result, coeffs, *pair.g1);
+            }
+        }
+        for (size_t j = 0; j != num_prepared_pairs; j++) {
+            PreparedPair& pair = prepared_pairs[j];
+            if (!pair.g1->is_zero() && !pair.g2->is_zero()) {
+                ell(result, pair.g2->coeffs[pair.coeff_idx++], *pair.g1);
+            }
+        }
+
+        if constexpr""", """            if (pair.g1->is_zero() || pair.g2->infinity) {
+                continue;
+            }
+            miller_doubling_step(coeffs, pair.r);
+            ell(result, coeffs, *pair.g1);
+        }
+        for (size_t j = 0; j != num_prepared_pairs; j++) {
+            PreparedPair& pair = prepared_pairs[j];
+            if (!pair.g1->is_zero() && !pair.g2->is_zero()) {
+                ell(result, pair.g2->coeffs[pair.coeff_idx++], *pair.g1);
+            }
+        }
+
+        if constexpr""")]),
  dict(name='c05-drop-equal-points-detour-mixed', prop='C05', expect='R-GUARD/G4',
       edits=[('include/bls12_381/curve.hpp', """            if (BaseField::equal(a.x, u2) && BaseField::equal(a.y, s2)) {
                 this->multiply2(a);
@@ -1036,4 +1063,46 @@ MUTANTS += [
       edits=[('src/core/arch/armv6_m/bigint.s', '    addcarry64 r0, r1, r2\n\n    @ Recover carry bit and store it in r0\n    eor r0, r0, r0', '    addcarry64 r0, r1, r2\n    addcarry64 r0, r1, r2\n\n    @ Recover carry bit and store it in r0\n    eor r0, r0, r0')]),
  dict(name='c17-m0-multiply-frame-too-small', prop='C17', expect='asm|',
       edits=[('src/core/arch/armv6_m/multiply.s', '    @ Allocate space for temporary BigInt<768> "tmp" storing the product\n    sub sp, sp, #96\n\n    @ Compute the product of a * b and store it in tmp\n\n    multiply768\n\n    @ Copy result', '    @ Allocate space for temporary BigInt<768> "tmp" storing the product\n    sub sp, sp, #88\n\n    @ Compute the product of a * b and store it in tmp\n\n    multiply768\n\n    @ Copy result')]),
+]
+# ---- w-NAF recoding step
+MUTANTS += [
+ dict(name='c06-wnaf-step-D3-reverted', prop='C06', revert='D3', expect='from_bigint'),
+ dict(name='c06-wnaf-step-negative-digit-off-by-window', prop='C06', expect='from_bigint',
+      edits=[('include/bls12_381/wnaf.hpp', 'u -= (1 << (window + 1));', 'u -= (1 << window);')]),
+ dict(name='c06-wnaf-step-addback-subtracts', prop='C06', expect='from_bigint',
+      edits=[('include/bls12_381/wnaf.hpp', 'a.bytes[0] = (uint8_t) (-u);\n                        c.add(c, a);', 'a.bytes[0] = (uint8_t) (-u);\n                        c.subtract(c, a);')]),
+ dict(name='c06-wnaf-step-lost-bit-reinserted-one-lower', prop='C06', expect='from_bigint',
+      edits=[('include/bls12_381/wnaf.hpp', 'c.bytes[(bits - 1) >> 3] |= (uint8_t) (1 << ((bits - 1) & 0x7));', 'c.bytes[(bits - 1) >> 3] |= (uint8_t) (1 << ((bits - 2) & 0x7));')]),
+ dict(name='c06-wnaf-step-threshold-allows-2w', prop='C06', expect='from_bigint',
+      edits=[('include/bls12_381/wnaf.hpp', 'u = (int16_t) (c.bytes[0] & ((1 << (window + 1)) - 1));', 'u = (int16_t) (c.bytes[0] & ((1 << (window + 2)) - 1));')]),
+ dict(name='c06-benign-wnaf-positive-digits-only', prop='C06', benign=True, expect='',
+      edits=[('include/bls12_381/wnaf.hpp', 'u = (int16_t) (c.bytes[0] & ((1 << (window + 1)) - 1));', 'u = (int16_t) (c.bytes[0] & ((1 << window) - 1));')]),
+ dict(name='c06-benign-wnaf-threshold-ge', prop='C06', benign=True, expect='',
+      edits=[('include/bls12_381/wnaf.hpp', 'if (u > (1 << window)) {', 'if (u >= (1 << window)) {')]),
+]
+# ---- session 4, later: guard-refined ranges, conditional reference bindings, R-HIDDEN/flag
+MUTANTS += [
+ dict(name='c17-benign-frobenius-index-arms-swapped', prop='C17', benign=True, expect='',
+      edits=[('src/bls12_381/fq12.cpp', 'unsigned int coeff_idx = power < 12 ? power : power % 12;', 'unsigned int coeff_idx = power >= 12 ? power % 12 : power;')]),
+ dict(name='c17-frobenius-index-subtract-once', prop='C17', expect='R-BOUNDS',
+      edits=[('src/bls12_381/fq12.cpp', 'unsigned int coeff_idx = power < 12 ? power : power % 12;', 'unsigned int coeff_idx = power < 12 ? power : power - 12;')]),
+ dict(name='c17-fq6-frobenius-guarded-index-off-by-one', prop='C17', expect='R-BOUNDS',
+      edits=[('src/bls12_381/fq12.cpp', 'unsigned int coeff_idx = power < 12 ? power : power % 12;', 'unsigned int coeff_idx = power <= 12 ? power : power % 12;')]),
+ dict(name='c18-benign-fq6-multiply-reference-locals', prop='C18', benign=True, expect='',
+      edits=[('src/bls12_381/fq6.cpp', '    void Fq6::multiply(const Fq6& a, const Fq6& b) {\n        Fq2 a_a;', '    void Fq6::multiply(const Fq6& a0, const Fq6& b0) {\n        const Fq6& a = a0;\n        const Fq6& b = b0;\n        Fq2 a_a;')]),
+ dict(name='c12-keygen-flag-test-on-next-element', prop='C12', expect='R-HIDDEN/flag',
+      edits=[('src/wkdibe/api.cpp', '                if (!attrs.attrs[k].omitFromKeys) {\n                    temp.multiply(params.h[i], attrs.attrs[k].id);\n                    sk.a0.add(sk.a0, temp);\n                }\n                k++;\n            } else if (!attrs.omitAllFromKeysUnlessPresent) {\n                sk.b[j].idx = i;\n                sk.b[j].hexp.multiply(params.h[i], r);',
+              '                if (!attrs.attrs[0].omitFromKeys) {\n                    temp.multiply(params.h[i], attrs.attrs[k].id);\n                    sk.a0.add(sk.a0, temp);\n                }\n                k++;\n            } else if (!attrs.omitAllFromKeysUnlessPresent) {\n                sk.b[j].idx = i;\n                sk.b[j].hexp.multiply(params.h[i], r);')]),
+]
+# ---- round 9
+MUTANTS += [
+ dict(name='seed-C03-bmi2-reduce-adox-drops-adcx-carry', prop='C03', patch='seeded/C03-bmi2-reduce-adox-drops-adcx-carry/patch.diff', expect='R-WORDALG'),
+ dict(name='seed-C06-wnaf-do-while-seeded-accumulator', prop='C06', patch='seeded/C06-wnaf-do-while-and-seeded-accumulator-zero-scalar/patch.diff', expect='R-POLY/digits'),
+ dict(name='seed-C09-decode-range-test-replaces-canonical-check', prop='C09', patch='seeded/C09-decode-range-test-replaces-canonical-check/patch.diff', expect='canonical'),
+ dict(name='seed-C11-nondelegable-keygen-via-precompute', prop='C11', patch='seeded/C11-nondelegable-keygen-via-precompute/patch.diff', expect='R-HIDDEN/flag'),
+ dict(name='seed-C11-nondelegable-keygen-via-precompute-c12', prop='C12', patch='seeded/C11-nondelegable-keygen-via-precompute/patch.diff', expect='R-HIDDEN/flag'),
+ dict(name='seed-C13-message-exponent-hash-reduce', prop='C13', patch='seeded/C13-message-exponent-hash-reduce/patch.diff', expect='VIOLATION property=C13'),
+ dict(name='seed-C14-adjust-precomputed-short-step', prop='C14', patch='seeded/C14-adjust-precomputed-short-step-raw-difference/patch.diff', expect='VIOLATION property=C14'),
+ dict(name='seed-C17-fq12-frobenius-index-subtract', prop='C17', patch='seeded/C17-fq12-frobenius-index-subtract/patch.diff', expect='R-BOUNDS'),
+ dict(name='seed-C18-fq6-multiply-operand-swap-lazy-read', prop='C18', patch='seeded/C18-fq6-multiply-operand-swap-lazy-read/patch.diff', expect='this==a, this==b'),
 ]
